@@ -22,7 +22,7 @@ def suite(d):
     bad = [l for l in out.splitlines() if l.startswith("FAIL") or l.startswith("--- FAIL")]
     if rc != 0:
         # timing-sensitive group tests: re-run failing packages once
-        pk = sorted(set(re.findall(r"^FAIL\s+(\S+)", out, re.M)))
+        pk = sorted(set(re.findall(r"^FAIL[ \t]+(\S+)", out, re.M)))
         if pk and all("lightpb" in p or "onoffpb" in p or "minibus" in p for p in pk):
             for _ in range(4):
                 rc2, out2 = sh("go test -vet=off -count=1 " + " ".join(pk), cwd=d)
